@@ -300,4 +300,10 @@ def policies(P):
             return np.asarray(0, np.int32)
         return np.asarray(ctx["rng"].choice(cand), np.int32)
 
-    return {"complete": nearest, "greedy": shuttle}
+    def complete(ctx):
+        """Per episode either the nearest-customer tour or the depot shuttle (the latter takes exactly 2n steps)."""
+        if "style" not in ctx:
+            ctx["style"] = shuttle if ctx["rng"].random() < 0.4 else nearest
+        return ctx["style"](ctx)
+
+    return {"complete": complete, "greedy": shuttle}
